@@ -166,6 +166,8 @@ class ipv4(packet_base):
             self.next = gre(raw=raw[self.hl*4:length], prev=self)
         elif dlen < self.iplen:
             self.msg('(ip parse) warning IP packet data shorter than IP len: %u < %u' % (dlen, self.iplen))
+            # Keep what there is of the payload (as the branches above do)
+            self.next = raw[self.hl*4:length]
         else:
             self.next =  raw[self.hl*4:length]
 
